@@ -1,19 +1,50 @@
 #!/bin/bash
-# usage: tools/integrate.sh C15 — cherry-pick the agent's repo commits onto /repo and merge its verif commits into /verif
+# usage: tools/integrate.sh C15 [C09 ...] — cherry-pick the agent's repo commits onto /repo and merge its verif commits into /verif
+# extra ids: further property entries to extract from the workspace's tools/props.py
 set -e
 P=$1
 W=/work/$P
 echo "== repo commits to pick"
-cd $W/repo
-base=$(git merge-base HEAD $(git -C /repo rev-parse HEAD) 2>/dev/null || true)
 git -C /repo fetch -q $W/repo HEAD
 commits=$(git -C /repo rev-list --reverse HEAD..FETCH_HEAD)
 for c in $commits; do
   msg=$(git -C /repo log -1 --format=%s $c)
+  if git -C /repo log --format=%s | grep -qxF "$msg"; then echo "skip (already present) $msg"; continue; fi
   echo "picking $c $msg"
-  git -C /repo cherry-pick $c || { echo "CONFLICT in repo cherry-pick of $c — resolve in /repo then rerun"; exit 1; }
+  git -C /repo cherry-pick $c || { echo "CONFLICT in repo cherry-pick of $c — resolve in /repo (git cherry-pick --continue) then rerun"; exit 1; }
 done
 echo "== verif merge"
 cd /verif
 git fetch -q $W/verif HEAD
-git merge --no-edit FETCH_HEAD || { echo "CONFLICT in verif merge — resolve in /verif"; exit 1; }
+git merge --no-edit FETCH_HEAD || true
+for id in "$@"; do
+python3 - "$W" "$id" <<'PY'
+import sys, pprint, importlib.util, os
+w, pid = sys.argv[1], sys.argv[2]
+src = os.popen("git -C %s/verif show HEAD:tools/props.py" % w).read()
+ns = {}
+try:
+    exec(compile(src, "props_ws", "exec"), ns)
+    ent = ns["PROPS"].get(pid)
+except Exception as e:
+    ent = None
+    print("could not load workspace props:", e)
+if ent is None:
+    f = "%s/verif/tools/props.d/%s.py" % (w, pid)
+    if os.path.exists(f):
+        print("workspace already uses props.d for", pid)
+    else:
+        print("NO props entry for", pid)
+else:
+    with open("/verif/tools/props.d/%s.py" % pid, "w") as f:
+        f.write('"""Configuration of ./check for %s (see tools/props.py)."""\nENTRY = ' % pid)
+        f.write(pprint.pformat(ent, width=140, sort_dicts=False) + "\n")
+    print("wrote props.d/%s.py" % pid)
+PY
+done
+git checkout --ours tools/props.py 2>/dev/null || true
+git checkout --ours MANIFEST.json 2>/dev/null || true
+git add -A
+git status --short | grep -E "^(UU|AA|DU|UD)" && { echo "unresolved conflicts remain"; exit 1; }
+git commit -qm "merge $P from agent workspace" || true
+echo "merged $P"
